@@ -17,6 +17,7 @@ static void fr (gpointer p) { }
 int main (int argc, char **argv)
 {
   gchar *data; gsize len; GError *err = NULL;
+  setvbuf (stdout, NULL, _IONBF, 0);
   if (!g_file_get_contents (argv[1], &data, &len, NULL)) return 2;
   if (argc > 3 && strcmp (argv[3], "noindex") == 0)
     {
@@ -27,6 +28,7 @@ int main (int argc, char **argv)
     }
   GITypelib *t = g_typelib_new_from_memory ((guint8 *) data, len, &err);
   if (!t) { printf ("BAD %s\n", err->message); return 3; }
+  { gchar *dir = g_path_get_dirname (argv[1]); g_irepository_prepend_search_path (dir); }   /* dependencies live beside it */
   const char *ns = g_irepository_load_typelib (NULL, t, 0, &err);
   if (!ns) { printf ("BAD %s\n", err->message); return 3; }
   int n = g_irepository_get_n_infos (NULL, ns);
@@ -44,6 +46,9 @@ int main (int argc, char **argv)
         { GType gt = g_type_from_name (arg); if (!gt) gt = g_boxed_type_register_static (g_strdup (arg), cp, fr);
           info = g_irepository_find_by_gtype (NULL, gt); }
       else if (s[0] == 'E') info = (GIBaseInfo *) g_irepository_find_by_error_domain (NULL, g_quark_from_string (arg));
+      else if (s[0] == 'L')
+        { DirEntry *e = g_typelib_get_dir_entry_by_name (t, arg);
+          printf ("%c %s\n", s[0], e ? g_typelib_get_string (t, e->name) : "-"); continue; }
       else if (s[0] == 'T')
         { DirEntry *e = g_typelib_get_dir_entry_by_gtype_name (t, arg);
           printf ("%c %s\n", s[0], e ? g_typelib_get_string (t, e->name) : "-"); continue; }
